@@ -87,7 +87,9 @@ def evalAtom (env : Env) : List Tok → Option (Val × List Tok)
       | .sym "." :: .id f :: .sym "(" :: .sym ")" :: r', .list l =>
         if f = str "len" then some (.int l.length, r') else some (v, r)
       | .sym "." :: .id f :: .sym "(" :: .sym ")" :: r', .str s =>
-        if f = str "len" then some (.int s.length, r') else some (v, r)
+        if f = str "len" then some (.int s.length, r')
+        else if f = str "clone" || f = str "to_string" || f = str "to_owned" then some (v, r')   -- an owned copy displays alike
+        else some (v, r)
       | .sym "." :: .num i :: r', .tup l => (l[i]?).map (·, r')
       | .sym "." :: .id f :: r', .pt x y =>
         if f = str "x" then some (.int x, r') else if f = str "y" then some (.int y, r') else none
